@@ -265,7 +265,8 @@ def group_stream(r, tier):
     for k in ("sr", "rr", "bye", "app", "sdes", "unknown", "fb", "custom", "pb", "compound", "chunk", "item", "fci"):
         cfgs = [c for c in streams.build_cfgs(k, r, "quick") if not c.get("_big")]
         r.shuffle(cfgs)
-        for cfg in cfgs[:n]:
+        keep = [c for c in cfgs if c.get("_rpsi_sweep")]
+        for cfg in cfgs[:n] + [c for c in keep if c not in cfgs[:n]]:
             base = len(ce)
             ce.append((cfg, gen.render(cfg, r, "canon"), {"style": "canon", "group_rel": 0}))
             for style in ("shuffle", "repeat", "owned", "probe", "probe"):
@@ -382,6 +383,9 @@ def project(pid, t, meta):
     out = project_(pid, t, meta)
     if meta.get("op") == "parse" and "shift_same" in t and pid in ("C01", "C08", "C09", "C10", "C11", "C12", "C15", "C18", "C19"):
         out["shift_same"] = t["shift_same"]
+    for k in ("again_same", "rt.again_same"):
+        if k in t and pid in ("C01", "C02", "C03", "C04", "C05", "C09", "C10", "C11", "C12", "C13", "C15", "C19"):
+            out[k] = t[k]
     return out
 
 
